@@ -342,6 +342,17 @@ fn main()
 					if k % 2 == 0 { emit(format!("T {}", txt), &mut out); }
 					if k % 8 == 0 { emit(format!("S {}", txt), &mut out); }
 				}
+				// very long / very deep literal trees (more than 1000, more than 4096 operators): a flat chain `v + 1 - 1 + 1 ...`,
+				// the same to the right, a chain that leaves the range only at its far end, unary chains
+				for n in [1001usize, 1100, 5000]
+				{
+					let mut l = c(0x11223300); for k in 0..n { l = bin(if k % 2 == 0 { 0 } else { 1 }, l, c(1)); }
+					let mut r = c(7); for k in 0..n { r = bin(if k % 2 == 0 { 0 } else { 1 }, c(1), r); }
+					let mut o = bin(0, c(i64::MAX), c(1)); for _ in 0..n { o = bin(0, o, c(0)); }
+					let mut o2 = c(5); for _ in 0..n { o2 = bin(2, o2, c(1)); } let o2 = bin(0, o2, bin(0, c(i64::MAX), c(1)));
+					let mut u = c(9); for _ in 0..n { u = neg(u); }
+					for t in [l, r, o, o2, u] { let txt = fmt_arg(&t); emit(format!("E ; {}", txt), &mut out); emit(format!("S {}", txt), &mut out); if n < 2000 { emit(format!("T {}", txt), &mut out); } }
+				}
 				// lists of literal trees ({a, b, c} and f(a, b, c)): every element is evaluated, an error in ANY element is reported
 				let n = if thorough { 400_000 } else { 12_000 };
 				for k in 0..n
